@@ -65,6 +65,9 @@ feature kern { pos g h -12; } kern;"""}
               "fea": "languagesystem DFLT dflt; lookup SHIFT useExtension { pos Q <0 0 30 0>; } SHIFT; lookup CTXP useExtension { pos P Q' lookup SHIFT; } CTXP; "
                      "lookup SUBX useExtension { sub Q by V; } SUBX; lookup CTXS useExtension { sub Q' lookup SUBX V; } CTXS; "
                      "feature calt { lookup CTXS; } calt; feature kern { lookup CTXP; pos V V -11; } kern;"}
+    # a character outside the BMP (the font carries a format 12 cmap subtable next to format 4)
+    S["S"] = {"kind": "ttf", "shapes": "mixed", "glyphs": ["smile", "I"], "coef": 11, "cmap": {0x1F600: "smile", ord("I"): "I"},
+              "fea": "languagesystem DFLT dflt; feature kern { pos I smile -21; } kern;"}
     S["F"] = {"kind": "cff", "shapes": "mixed", "glyphs": ["a", "b"], "fea": "languagesystem DFLT dflt; feature kern { pos a b -31; } kern;"}
     S["G"] = {"kind": "cff", "shapes": "mixed", "glyphs": ["m", "n"], "coef": 2, "fea": "languagesystem DFLT dflt; feature kern { pos m n 17; } kern;"}
     return S
@@ -139,7 +142,7 @@ def describe(hbf, res):
 
 class Merge(Unit):
     name = "merge-lists"
-    rule = ("all ordered lists of 2..3 (thorough: 4 from the TrueType pool) fonts from the pool {A,B,C,D,E,H,M,K} (TrueType: disjoint, identical-duplicate, different-duplicate, no-layout, colliding glyph names, mark positioning + GDEF, class kerning + contextual substitution) and {F,G,X1,X2} (CFF) merged with Merger().merge; plus N (glyph names 'a', 'a.1': the merger's own renaming scheme), U (unreferenced lookups in front of the used ones), R (a required feature that is FeatureRecord #0) and T (contextual rules inside extension lookups, GSUB and GPOS) in every pair and in every triple with A; plus every ordered triple merged in two steps, merge(merge(X,Y),Z) (a merged font as input); mixed flavours must raise; "
+    rule = ("all ordered lists of 2..3 (thorough: 4 from the TrueType pool) fonts from the pool {A,B,C,D,E,H,M,K} (TrueType: disjoint, identical-duplicate, different-duplicate, no-layout, colliding glyph names, mark positioning + GDEF, class kerning + contextual substitution) and {F,G,X1,X2} (CFF) merged with Merger().merge; plus N (glyph names 'a', 'a.1': the merger's own renaming scheme), U (unreferenced lookups in front of the used ones), R (a required feature that is FeatureRecord #0) T (contextual rules inside extension lookups, GSUB and GPOS) and S (a character outside the BMP: format 12 cmap) in every pair and in every triple with A; plus every ordered triple merged in two steps, merge(merge(X,Y),Z) (a merged font as input); mixed flavours must raise; "
             "oracle on the saved+reloaded result: every code point of the union maps to a glyph whose outline and advance equal those in the FIRST input supporting it; glyph names unique; for inputs whose character set is disjoint from all others in the list, every string of length <=3 over 4 of its characters shapes to glyphs with the same outlines/advances/offsets as with that input alone; distinct = each list")
     chunk = 4
     required_witnesses = ("duplicate identical glyph", "duplicate different glyph", "glyph name collision", "disjoint shaping compared", "CFF merge", "mixed flavour rejected", "merged font used as an input")
@@ -155,15 +158,15 @@ class Merge(Unit):
                 yield list(lst)
         # the two fonts built to collide with the merger's renaming / lookup pruning: every pair with
         # every other font, and every triple with A (same glyph names) and one more
-        for x in ("N", "U", "R", "T"):
-            for y in tt + [z for z in ("N", "U", "R", "T") if z != x]:
+        for x in ("N", "U", "R", "T", "S"):
+            for y in tt + [z for z in ("N", "U", "R", "T", "S") if z != x]:
                 yield [x, y]
                 yield [y, x]
             for y in [t for t in tt if t != "A"]:
                 for lst in itertools.permutations([x, "A", y], 3):
                     yield list(lst)
         # merged fonts as inputs (histories): merge(merge(X, Y), Z) is observed like merge(X, Y, Z)
-        nest = ["A", "B", "D", "H", "K", "N", "U", "R", "T"] if tier == "quick" else tt + ["N", "U", "R", "T"]
+        nest = ["A", "B", "D", "H", "K", "N", "U", "R", "T", "S"] if tier == "quick" else tt + ["N", "U", "R", "T", "S"]
         for lst in itertools.permutations(nest, 3):
             yield ["nested"] + list(lst)
         for n in (2, 3):
